@@ -86,6 +86,10 @@ type plan struct {
 	HeadChoice   []int // per node: index into the pool of candidate head roots
 	SplitFFG     []bool
 	SyncChoice   []int // per node: index into the pool of sync block roots
+	ResignMs     []int // per node: -1, or the delay after which the node's VC signs its non-consensus duties AGAIN for other data (VC restart / fail-over inside the slot)
+	SyncChoice2  []int // per node: the head the re-signing VC sees the second time
+	SyncSplit    string // "balanced": the nodes' beacon nodes are split evenly between two heads
+	LossyLinks   int    // number of directed links that lose about half of their messages
 	ExitEpochOff []int
 	NetProfile   string
 	DupProb      float64
@@ -264,6 +268,48 @@ func makePlan(rng *rand.Rand) *plan {
 		}
 		p.ExitEpochOff = append(p.ExitEpochOff, eo)
 	}
+	// re-signing VCs and split heads (non-consensus duties): the node must refuse the second,
+	// conflicting partial signature of its own VC and never send it
+	for i := 0; i < p.N; i++ {
+		p.ResignMs = append(p.ResignMs, -1)
+		p.SyncChoice2 = append(p.SyncChoice2, p.SyncChoice[i])
+	}
+	if rng.Intn(100) < 55 {
+		p.SyncSplit = "balanced"
+		var honest []int
+		for _, i := range rng.Perm(p.N) {
+			if roles[i] == roleHonest {
+				honest = append(honest, i)
+			}
+		}
+		nres := 1
+		if p.N == 5 || (len(honest) > 3 && rng.Intn(3) == 0) {
+			nres = 2
+		}
+		for k, i := range honest {
+			if k < nres {
+				first := rng.Intn(2)
+				p.SyncChoice[i], p.SyncChoice2[i] = first, 1-first
+				if rng.Intn(2) == 0 {
+					p.ResignMs[i] = rng.Intn(40) // both partials in flight together: reordering decides
+				} else {
+					p.ResignMs[i] = 100 + rng.Intn(900)
+				}
+			} else {
+				p.SyncChoice[i] = (k - nres) % 2
+				p.SyncChoice2[i] = p.SyncChoice[i]
+			}
+		}
+	} else if rng.Intn(3) == 0 {
+		i := rng.Intn(p.N)
+		if roles[i] == roleHonest || roles[i] == roleCrash {
+			p.ResignMs[i] = rng.Intn(1000)
+			p.SyncChoice2[i] = (p.SyncChoice[i] + 1 + rng.Intn(2)) % 3
+		}
+	}
+	if rng.Intn(3) == 0 {
+		p.LossyLinks = 1 + rng.Intn(3)
+	}
 	p.NetProfile = []string{"fast", "jitter", "jitter", "slow-links", "bursty"}[rng.Intn(5)]
 	p.DupProb = []float64{0, 0.05, 0.2, 0.4}[rng.Intn(4)]
 	if rng.Intn(4) == 0 {
@@ -312,6 +358,7 @@ func (p *plan) rotate(o int) {
 	p.Roles = rotS(p.Roles)
 	p.StartDelayMs, p.FetchDelayMs, p.VCDelayMs = rotI(p.StartDelayMs), rotI(p.FetchDelayMs), rotI(p.VCDelayMs)
 	p.HeadChoice, p.SyncChoice, p.ExitEpochOff = rotI(p.HeadChoice), rotI(p.SyncChoice), rotI(p.ExitEpochOff)
+	p.ResignMs, p.SyncChoice2 = rotI(p.ResignMs), rotI(p.SyncChoice2)
 	p.NoPropose, p.SplitFFG, p.ByzConsensus, p.BNFlaky = rotB(p.NoPropose), rotB(p.SplitFFG), rotB(p.ByzConsensus), rotB(p.BNFlaky)
 	crash := map[int]int64{}
 	for j, at := range p.CrashAt {
